@@ -284,6 +284,88 @@ func c16Work(w *h.W) {
 		pc := &h.ProgCase{Steps: []h.ProgStep{h.Query(rd(s.q), s.max)}}
 		runProgCase(w, "special", pc, 1)
 	}
+	c16Chains(w)
+}
+
+// chains: the input list of a call is itself the answer of an earlier built-in (so it may be held
+// in any internal representation, with any spare capacity), and TWO calls extend the same list with
+// both answers kept: an answer must not change when a later call runs.
+func c16Chains(w *h.W) {
+	elems := []string{"a", "b", "c", "d", "e", "f", "g", "h", "i", "j"}
+	producers := []func(n int) string{
+		func(n int) string { return "L = [" + strings.Join(elems[:n], ", ") + "]" },
+		func(n int) string {
+			if n == 0 {
+				return "append([], [], L)"
+			}
+			return "append([" + strings.Join(elems[:n-1], ", ") + "], [" + elems[n-1] + "], L)"
+		},
+		func(n int) string { return "findall(E, member(E, [" + strings.Join(elems[:n], ", ") + "]), L)" },
+		func(n int) string {
+			rev := []string{}
+			for i := n - 1; i >= 0; i-- {
+				rev = append(rev, elems[i])
+			}
+			return "sort([" + strings.Join(rev, ", ") + "], L)"
+		},
+		func(n int) string { return "T0 =.. [k" + strings.Repeat(", z", 0) + strings.Join(append([]string{""}, elems[:n]...), ", ") + "], T0 =.. [_|L]" },
+		func(n int) string { return "atom_chars('" + strings.Join(elems[:n], "") + "', L)" },
+		func(n int) string { return "copy_term([" + strings.Join(elems[:n], ", ") + "], L)" },
+		func(n int) string { return fmt.Sprintf("length(L, %d)", n) },
+		func(n int) string {
+			vs := []string{}
+			for i := 0; i < n; i++ {
+				vs = append(vs, fmt.Sprintf("W%d", i))
+			}
+			return "term_variables(k(" + strings.Join(append(vs, "nothing"), ", ") + "), L)"
+		},
+		func(n int) string {
+			return "findall(E, member(E, [" + strings.Join(elems[:n], ", ") + "]), L0), append(L0, [z], L)"
+		},
+		func(n int) string { return "atom_codes('" + strings.Join(elems[:n], "") + "', L)" },
+		func(n int) string {
+			if n == 0 {
+				return "L = []"
+			}
+			return "append(L, [_], [" + strings.Join(elems[:n], ", ") + ", z])"
+		},
+	}
+	consumers := []string{
+		"append(L, [x], %s)", "append(L, [y, z], %s)", "append(L, T%s, %s)", "append([w], L, %s)", "%s = [w|L]", "append(L, L, %s)", "%s =.. [g|L]",
+		"select(a, L, %s)", "append(%s, [_], L)", "sort(L, %s)", "append(L, [x], Q%s), append(Q%s, [v], %s)",
+	}
+	mk := func(c, r string) string {
+		out := ""
+		for i := 0; i < len(c); i++ {
+			if c[i] == '%' && i+1 < len(c) && c[i+1] == 's' {
+				out += r
+				i++
+			} else {
+				out += string(c[i])
+			}
+		}
+		return out
+	}
+	for pi, pr := range producers {
+		for n := 0; n <= w.Pick(9, 10); n++ {
+			if !w.Mine() {
+				continue
+			}
+			if w.Expired() {
+				return
+			}
+			pc := &h.ProgCase{Independent: true, DQ: "codes"}
+			for _, c1 := range consumers {
+				for _, c2 := range consumers {
+					q := pr(n) + ", " + mk(c1, "R1") + ", " + mk(c2, "R2")
+					st := h.Query(rd(q), 12)
+					st.Vars = []string{"L", "R1", "R2"}
+					pc.Steps = append(pc.Steps, st)
+				}
+			}
+			runProgCase(w, "chains", pc, pi+n)
+		}
+	}
 }
 
 func c16Replay(b []byte) (string, string, bool) {
@@ -297,7 +379,7 @@ func c16Replay(b []byte) (string, string, bool) {
 func init() {
 	h.Register(&h.Check{
 		ID: "C16",
-		Rule: "for each of the 17 predicates: the COMPLETE finite relation over a domain is computed by brute force (atoms of <= 2/3 characters over {a,b,é,日} so that byte and character offsets differ; lists of <= 3/4 elements; 12 terms; integers near 0 and near +-2^63), then for every instantiation pattern the predicate's modes admit and every combination of bound values (all projections of the relation plus all one-position mutations, i.e. matching and non-matching calls) the call is run to exhaustion and its answers compared AS A MULTISET with the matching tuples; modes that create variables or enumerate infinitely (length/2, append/3, between/3 with inf, member/select on partial lists, functor/3 and =../2 construction) are compared with the reference machine on their first answers. Non-trivial = at least one matching tuple; distinct = goal text.",
+		Rule: "for each of the 17 predicates: the COMPLETE finite relation over a domain is computed by brute force (atoms of <= 2/3 characters over {a,b,é,日} so that byte and character offsets differ; lists of <= 3/4 elements; 12 terms; integers near 0 and near +-2^63), then for every instantiation pattern the predicate's modes admit and every combination of bound values (all projections of the relation plus all one-position mutations, i.e. matching and non-matching calls) the call is run to exhaustion and its answers compared AS A MULTISET with the matching tuples; modes that create variables or enumerate infinitely (length/2, append/3, between/3 with inf, member/select on partial lists, functor/3 and =../2 construction) are compared with the reference machine on their first answers; chains: the input list is itself the answer of one of 12 built-in constructions (literal, append/3, findall/3, sort/2, =../2, atom_chars/2, atom_codes/2, copy_term/2, length/2, term_variables/2, nested, append in split mode) at every length 0..9 (10), and every ordered pair of 11 calls that extend/decompose that same list runs in one conjunction with both answers kept, compared with the reference machine. Non-trivial = at least one matching tuple; distinct = goal text.",
 		Explanation: "state = one call pattern with bound values; transition = the call run to exhaustion on the real interpreter; oracle = the brute-force relation filtered by the bound arguments (each tuple exactly once, nothing else) - which also gives the monotonicity clause, since a more instantiated call is compared with the matching subset of the same relation",
 		Assumptions: []string{"ref/relations: brute-force definitions (all splits, all (B,L,A) triples, all index/element pairs ...) with text measured in runes", "member/2 and select/3 answer once per occurrence (position) of the element", "errors for calls outside the modes belong to C05"},
 		Work:        c16Work,
